@@ -216,3 +216,19 @@ PROPS["C11"] = dict(
     bounds={"quick": "strings <= 4 letters", "thorough": "strings <= 5 letters"},
     assumptions=COMMON_ASSUMPTIONS + ["only the known OS-device type bits can be printed: the parse-back comparison masks unknown bits"],
 )
+
+
+PROPS["C13"] = dict(
+    level_text="Exhaustive within bounds: breadth-first exploration of every history over {add (valid and invalid kinds/objects/flags), "
+               "remove, remove_by_depth, release_remove, restrict, switch-to-dup, switch-to-XML-reload} up to the depth bound from 6 roots, "
+               "on the real library, with a list reference model; after every step the whole query battery (4 getters x kind filters x *nr "
+               "in {0,1,all}) must equal the model and the transforms are applied with NULLs / switch ports at every subset of positions.",
+    technique="explicit-state BFS over distances API histories of the real library against a list reference model",
+    design_ref="DESIGN.md 5 (C13)",
+    stages=[simple("dist", "c13_distances", parts=48, deadline={"quick": 120, "thorough": 3000})],
+    explanation="Roots: pu:4, node:4 pu:1, node:2 core:2 pu:1, package:2 core:2 pu:2, io.xml (OS devices), annot.xml (preloaded homogeneous + heterogeneous matrices).",
+    bounds={"quick": "depth 2 (second step with the lean add alphabet)", "thorough": "depth 3"},
+    assumptions=COMMON_ASSUMPTIONS + ["grouping at commit (GROUP flag) is exercised by C02, not here",
+                                      "heterogeneous structures are modelled as never matching a depth/type filter",
+                                      "shared-memory adoption of distances is covered by C19"],
+)
